@@ -37,7 +37,7 @@ P_Protocol(e) ==
       order == e.order                                    \* histories in the order they were committed
       RECURSIVE S(_)
       S(i) == IF i > Len(order) THEN <<>> ELSE Shape(order[i], HRec(e, order[i]).prior, e.atomic) \o S(i + 1)
-  IN Collapse(evs) = S(1)
+  IN Collapse(SelectSeq(evs, LAMBDA x : x.k # "flush")) = S(1)
 \* children before parents: a history's events come after those of every history below it
 P_ChildFirst(e) ==
   \A i, j \in DOMAIN e.order : (i < j) => ~(HRec(e, e.order[i]).depth < HRec(e, e.order[j]).depth
@@ -54,7 +54,7 @@ Predict(e, h) ==
       G(i, fs0) == IF i > e.k + 1 \/ i > Len(e.events) THEN fs0
                    ELSE LET ev == EvOf(e.events[i])
                             how == IF i <= e.k THEN "full" ELSE e.mode
-                        IN G(i + 1, IF ev.h = h THEN ApplyT(fs0, ev, how, tot) ELSE fs0)
+                        IN G(i + 1, IF ev.h # h THEN fs0 ELSE IF e.buffered THEN ApplyB(fs0, ev, how, tot) ELSE ApplyT(fs0, ev, how, tot))
   IN G(1, InitH(hr.prior))
 ClassesOf(f) == [folder |-> f.folder, man |-> Class(f.man), tmpman |-> Class(f.tmpman),
                  chain |-> Class(f.chain), tmpchain |-> Class(f.tmpchain)]
@@ -76,7 +76,7 @@ PredictLoadExit(e) ==
 Verdict(e) ==
   IF e.kind = "protocol"
   THEN [tid |-> e.tid, i |-> e.i, op |-> "create", exit |-> e.exit, kind |-> "protocol",
-        P_C15_Protocol |-> P_Protocol(e), P_C08_ChildFirst |-> P_ChildFirst(e), A_nested |-> Len(e.order) > 1]
+        M_protocol |-> P_Protocol(e), P_C08_ChildFirst |-> P_ChildFirst(e), A_nested |-> Len(e.order) > 1]
   ELSE
   LET hs == HIds(e)
       ob(h) == HRec(e, h).obs
